@@ -287,6 +287,10 @@ def validate_scalar(value: Any, dtype: DataType) -> Any:
     if vtype is dtype.kind:
         return value
 
+    # An object column holds any value
+    if dtype.kind is object:
+        return value
+
     # Numeric coercions
     if dtype.kind is float and vtype in (int, bool):
         return float(value)
